@@ -201,6 +201,83 @@ SPELLINGS_ARRAY = ["Td3", "Te3", "Tad3", "Tcd3", "Td3a", "Td3c", "Tce3", "TNd3",
 SPELLINGS_PARAM = ["Tp", "Tap", "TNd3p", "TNp"]
 
 
+def front_error_orders():
+    """two independent front-end errors in every relative order: error kind X at pipeline / entry point 0, kind Y at
+    pipeline / entry point 1 (and both at one pipeline), in both file layouts, with and without forward declarations.
+    The answer is the first error the type checker meets in file order (attributes are parsed where a function is
+    defined, a Pipeline block sees the functions registered before it)."""
+    kinds = "ABCDEFHI"
+
+    def build(errs, layout, fd, sampler_index=False, late=False):
+        res = "g_t:Texture2D:-:-:0:0:e;g_s:SamplerState:-:-:1:0:e" + (":vi3" if sampler_index else "")
+        names = ["cs_0", "cs_1", "vs_2", "ps_3"]
+        eopts = [[], [], [], []]
+        stages = [[0], [1]]
+        pnames = ["P0", "P1"]
+        popts = [[], []]
+        for kind, j in errs:
+            if kind == "A":
+                if j == 0:
+                    return None
+                pnames[1] = pnames[0]
+            elif kind == "B":
+                names[j] = "h0"
+            elif kind == "C":
+                stages[j] = [j, 2]
+            elif kind == "D":
+                stages[j] = [j, j]
+            elif kind == "E":
+                popts[j].append("gs3")
+            elif kind == "F":
+                stages[j] = []
+            elif kind == "H":
+                eopts[j].append("nt3")
+            elif kind == "I":
+                popts[j].append("b")
+        if fd:
+            for j in (0, 1):
+                eopts[j].append("fd")
+        if late:
+            eopts[0].append("lo")
+        ents = []
+        for k, (n, st, th) in enumerate(zip(names, ["Compute", "Compute", "Vertex", "Pixel"], ["8.4.1", "4.2.1", "-", "-"])):
+            e = f"{n}:{st}:0:::{th}"
+            if eopts[k]:
+                e += ":" + "+".join(eopts[k])
+            ents.append(e)
+        pipes = []
+        for j in (0, 1):
+            pp = f"{pnames[j]}:-:{','.join(str(x) for x in stages[j])}"
+            if popts[j]:
+                pp += ":" + "+".join(popts[j])
+            pipes.append(pp)
+        return [layout, res, "h0:0::", ";".join(ents), ";".join(pipes)]
+
+    out = []
+    stage_kinds = "CDF"
+    for layout in ["0", "0;L1"]:
+        for fd in [False, True]:
+            combos = []
+            for x in kinds:
+                combos.append(([(x, 0)], False))
+                combos.append(([(x, 1)], False))
+                combos.append(([(x, 1)], True))          # a static sampler with an index comes before everything
+                for y in kinds:
+                    combos.append(([(x, 0), (y, 1)], False))
+                    if x < y and not (x in stage_kinds and y in stage_kinds):
+                        # both at one pipeline: the order of the checks inside parse_pipeline / between a block and its entry
+                        combos.append(([(x, 0), (y, 0)], False))
+                        combos.append(([(x, 1), (y, 1)], False))
+            for errs, sampler in combos:
+                for late in ([False, True] if len(errs) == 1 else [False]):
+                    f = build(errs, layout, fd, sampler, late)
+                    if f is None:
+                        continue
+                    for tgt in ["dx", "msl"]:
+                        out.append("\t".join(["C05.meta", tgt, "all"] + f))
+    return out
+
+
 def search(ctx):
     """small inputs enumerated for the witness search after a broken obligation: every bindable kind alone and
     next to a second resource, with and without array / explicit group (in each spelling) / static sampler / bindless,
@@ -294,6 +371,8 @@ def search(ctx):
                   "cs_0:Compute:0:::70000.0.3", "vs_0:Vertex:0:::4.2.1", "cs_0:Compute:0:::8.4.1:fd", "float16_t:Compute:0:::8.4.1"]:
             out.append("\t".join(["C05.meta", tgt, "name=P0", "0", "g_t:Texture2D:-:-:0:0:e", "", e, "P0:-:0"]))
         out.append("\t".join(["C05.meta", tgt, "name=P0", "0", "g_t:Texture2D:-:-:0:0:e", "a:0::;a::0:", "a_0:Compute:0:0,1::8.4.1", "P0:-:0"]))
+    # two front-end errors in every relative order
+    out.extend(front_error_orders())
     # what the typer builds: the layer chain of every distinct resource list above (target independent)
     seen = []
     for line in out:
